@@ -29,7 +29,9 @@ import (
 	"0chain.net/chaincore/round"
 	"0chain.net/chaincore/transaction"
 	"0chain.net/core/common"
+	"0chain.net/core/datastore"
 	"0chain.net/core/encryption"
+	"0chain.net/core/memorystore"
 
 	"github.com/0chain/common/core/logging"
 	"github.com/0chain/common/core/statecache"
@@ -251,7 +253,7 @@ func summarise(rep string) string {
 				own = strings.TrimPrefix(fn, "0chain.net/")
 			}
 			if drv == "" && strings.Contains(fn, "harness/drivers/races.") {
-				drv = "caller:" + fn[strings.LastIndex(fn, "/")+1:]
+				drv = "caller" // the access was inlined into (or made by) the calling code of the driver
 			}
 		}
 		if own == "" {
@@ -276,11 +278,12 @@ func defectOf(site string) string {
 		{"block.(*Block).GetBlockState", "block.Block blockState is read and written without any mutex"},
 		{"block.(*Block).SetVerificationStatus", "block.Block verificationStatus is read and written without any mutex"},
 		{"block.(*Block).GetVerificationStatus", "block.Block verificationStatus is read and written without any mutex"},
-		{"block.(*Block).GetSummary", "block.Block.GetSummary reads the state hash without the state mutex"},
+		{"block.(*Block).GetSummary", "block.Block.GetSummary reads state-hash and previous-block fields outside their mutexes"},
 		{"block.(*Block).Clone", "block.Block.Clone reads ticket, status and state fields outside their mutexes"},
 		{"block.(*UnverifiedBlockBody).Clone", "block.Block.Clone reads ticket, status and state fields outside their mutexes"},
 		{"block.copyVerificationTickets", "block.Block.Clone reads ticket, status and state fields outside their mutexes"},
-		{"caller:", "a slice returned by a locked getter shares its backing array with the round (walked after the lock is released)"},
+		{"addProposedBlock", "a slice returned by a locked getter shares its backing array with the round (walked after the lock is released)"},
+		{"caller", "a slice returned by a locked getter shares its backing array with the round (walked after the lock is released)"},
 	} {
 		if strings.Contains(site, d[0]) {
 			return d[1]
@@ -337,6 +340,9 @@ func lightSetup() {
 		logging.Logger = zap.NewNop()
 		logging.N2n = zap.NewNop()
 		logging.MemUsage = zap.NewNop()
+	}
+	if datastore.GetEntityMetadata("block_summary") == nil {
+		block.SetupBlockSummaryEntity(memorystore.GetStorageProvider()) // Block.GetSummary instantiates a summary entity
 	}
 	miners = node.NewPool(node.NodeTypeMiner)
 	for i := 0; i < 4; i++ {
